@@ -168,7 +168,7 @@ def _(b, k):
 
 
 @entry("decomposition.non_negative_parafac_hals", ARR + INIT + ("fixed_modes", "fixed_last", "sparsity_list", "sparsity_fixed", "sparsity_float",
-                                                                 "nn_modes", "random", "normalize", "errors", "invalid_init"), FLOATS)
+                                                                 "nn_modes", "nn_modes_set", "nn_modes_tuple", "random", "normalize", "errors", "invalid_init"), FLOATS)
 def _(b, k):
     f = D().non_negative_parafac_hals
     kw = dict(n_iter_max=IT, tol=0)
@@ -189,6 +189,10 @@ def _(b, k):
         return Call(f, X, RANK, sparsity_coefficients=0.1, **kw)
     if k == "nn_modes":
         return Call(f, X, RANK, nn_modes=[0, 1], **kw)
+    if k == "nn_modes_set":
+        return Call(f, X, RANK, nn_modes={0, 1, 2}, **kw)
+    if k == "nn_modes_tuple":
+        return Call(f, X, RANK, nn_modes=(1,), **kw)
     if k == "random":
         return Call(f, X, RANK, init="random", random_state=1, **kw)
     if k == "normalize":
@@ -318,7 +322,7 @@ def _(b, k):
 
 
 # ----------------------------------------------------------------------------- Tucker family
-TR = [2, 3, 2]
+TR = (2, 3, 2)          # template only: every call gets its own list(TR)
 
 
 def tk_init(b, k, nonneg=False, shape=SHAPE, rank=TR):
@@ -330,51 +334,61 @@ def tk_init(b, k, nonneg=False, shape=SHAPE, rank=TR):
 TINIT = ("init_tuple", "init_list", "init_obj", "init_tview")
 
 
-@entry("decomposition.tucker", ARR + TINIT + ("matrix", "mask", "fixed_factors", "fixed_factors_unsorted", "random", "errors", "rank_int", "invalid_fixed", "invalid_svd"), ALLDT)
+@entry("decomposition.tucker", ARR + TINIT + ("rank_tuple", "rank_overlarge", "matrix", "mask", "fixed_factors", "fixed_factors_unsorted", "random", "errors", "rank_int", "invalid_fixed", "invalid_svd"), ALLDT)
 def _(b, k):
     f = D().tucker
     kw = dict(n_iter_max=IT, tol=0)
     if k == "matrix":
         return Call(f, b.lowrank((4, 3), RANK), [2, 2], **kw)
+    if k == "rank_tuple":
+        return Call(f, b.lowrank(SHAPE, RANK), tuple(TR), **kw)
+    if k == "rank_overlarge":       # larger than the tensor allows: the validated rank differs from the caller's list
+        return Call(f, b.lowrank(SHAPE, RANK), [5, 6, 4], **kw)
     if k in ARR:
-        return Call(f, b.lowrank(SHAPE, RANK, k), TR, **kw)
+        return Call(f, b.lowrank(SHAPE, RANK, k), list(TR), **kw)
     X = b.lowrank(SHAPE, RANK)
     if k in TINIT:
-        return Call(f, X, TR, init=tk_init(b, k), **kw)
+        return Call(f, X, list(TR), init=tk_init(b, k), **kw)
     if k == "mask":
-        return Call(f, X, TR, mask=b.mask(SHAPE), **kw)
+        return Call(f, X, list(TR), mask=b.mask(SHAPE), **kw)
     if k == "fixed_factors":
-        return Call(f, X, TR, init=tk_init(b, "init_tuple"), fixed_factors=[1], **kw)
+        return Call(f, X, list(TR), init=tk_init(b, "init_tuple"), fixed_factors=[1], **kw)
     if k == "fixed_factors_unsorted":
-        return Call(f, X, TR, init=tk_init(b, "init_tuple"), fixed_factors=[2, 0], **kw)
+        return Call(f, X, list(TR), init=tk_init(b, "init_tuple"), fixed_factors=[2, 0], **kw)
     if k == "random":
-        return Call(f, X, TR, init="random", random_state=1, **kw)
+        return Call(f, X, list(TR), init="random", random_state=1, **kw)
     if k == "errors":
-        return Call(f, X, TR, return_errors=True, **kw)
+        return Call(f, X, list(TR), return_errors=True, **kw)
     if k == "rank_int":
         return Call(f, X, 2, **kw)
     if k == "invalid_fixed":
-        return Call(f, X, TR, fixed_factors=[1], **kw).raises()
-    return Call(f, X, TR, svd="bogus", **kw).raises()
+        return Call(f, X, list(TR), fixed_factors=[1], **kw).raises()
+    return Call(f, X, list(TR), svd="bogus", **kw).raises()
 
 
-@entry("decomposition.partial_tucker", ARR + TINIT + ("modes", "mask", "random"), ALLDT)
+@entry("decomposition.partial_tucker", ARR + TINIT + ("modes", "modes_tuple", "modes_unsorted", "rank_overlarge", "mask", "random"), ALLDT)
 def _(b, k):
     f = D().partial_tucker
     kw = dict(n_iter_max=IT, tol=0)
     if k in ARR:
-        return Call(f, b.lowrank(SHAPE, RANK, k), TR, **kw)
+        return Call(f, b.lowrank(SHAPE, RANK, k), list(TR), **kw)
     X = b.lowrank(SHAPE, RANK)
     if k in TINIT:
-        return Call(f, X, TR, init=tk_init(b, k), **kw)
+        return Call(f, X, list(TR), init=tk_init(b, k), **kw)
     if k == "modes":
         return Call(f, X, [2, 2], modes=[0, 2], **kw)
+    if k == "modes_tuple":
+        return Call(f, X, (2, 2), modes=(0, 2), **kw)
+    if k == "modes_unsorted":
+        return Call(f, X, [2, 3], modes=[2, 1], **kw)
+    if k == "rank_overlarge":
+        return Call(f, X, [5, 6, 4], **kw)
     if k == "mask":
-        return Call(f, X, TR, mask=b.mask(SHAPE), svd_mask_repeats=2, **kw)
-    return Call(f, X, TR, init="random", random_state=1, **kw)
+        return Call(f, X, list(TR), mask=b.mask(SHAPE), svd_mask_repeats=2, **kw)
+    return Call(f, X, list(TR), init="random", random_state=1, **kw)
 
 
-@entry("decomposition.Tucker.fit_transform", ("fresh", "init_tuple", "mask"), ALLDT)
+@entry("decomposition.Tucker.fit_transform", ("fresh", "init_tuple", "mask", "rank_tuple", "rank_overlarge", "fixed_factors"), ALLDT)
 def _(b, k):
     kw = dict(n_iter_max=IT, tol=0)
     if k == "init_tuple":
@@ -382,9 +396,15 @@ def _(b, k):
     if k == "mask":
         kw["mask"] = b.mask(SHAPE)
 
-    def fit(X, **kw):
-        return D().Tucker(TR, **kw).fit_transform(X)
-    return Call(fit, b.lowrank(SHAPE, RANK), **kw)
+    def fit(X, rank, **kw):
+        return D().Tucker(rank, **kw).fit_transform(X)
+    if k == "rank_tuple":
+        return Call(fit, b.lowrank(SHAPE, RANK), tuple(TR), **kw)
+    if k == "rank_overlarge":
+        return Call(fit, b.lowrank(SHAPE, RANK), [5, 6, 4], **kw)
+    if k == "fixed_factors":
+        return Call(fit, b.lowrank(SHAPE, RANK), list(TR), init=tk_init(b, "init_tuple"), fixed_factors=[2, 0], **kw)
+    return Call(fit, b.lowrank(SHAPE, RANK), list(TR), **kw)
 
 
 @entry("decomposition.non_negative_tucker", ARR + TINIT + ("random", "normalize", "errors"), FLOATS)
@@ -392,15 +412,15 @@ def _(b, k):
     f = D().non_negative_tucker
     kw = dict(n_iter_max=IT, tol=0)
     if k in ARR:
-        return Call(f, b.lowrank(SHAPE, RANK, k, nonneg=True), TR, **kw)
+        return Call(f, b.lowrank(SHAPE, RANK, k, nonneg=True), list(TR), **kw)
     X = b.lowrank(SHAPE, RANK, nonneg=True)
     if k in TINIT:
-        return Call(f, X, TR, init=tk_init(b, k, nonneg=True), **kw)
+        return Call(f, X, list(TR), init=tk_init(b, k, nonneg=True), **kw)
     if k == "random":
-        return Call(f, X, TR, init="random", random_state=1, **kw)
+        return Call(f, X, list(TR), init="random", random_state=1, **kw)
     if k == "normalize":
-        return Call(f, X, TR, normalize_factors=True, **kw)
-    return Call(f, X, TR, return_errors=True, **kw)
+        return Call(f, X, list(TR), normalize_factors=True, **kw)
+    return Call(f, X, list(TR), return_errors=True, **kw)
 
 
 @entry("decomposition.non_negative_tucker_hals", ARR + TINIT + ("fixed_modes", "fixed_last", "sparsity_list", "sparsity_fixed", "core_sparsity",
@@ -409,33 +429,41 @@ def _(b, k):
     f = D().non_negative_tucker_hals
     kw = dict(n_iter_max=IT, tol=0)
     if k in ARR:
-        return Call(f, b.lowrank(SHAPE, RANK, k, nonneg=True), TR, **kw)
+        return Call(f, b.lowrank(SHAPE, RANK, k, nonneg=True), list(TR), **kw)
     X = b.lowrank(SHAPE, RANK, nonneg=True)
     if k in TINIT:
-        return Call(f, X, TR, init=tk_init(b, k, nonneg=True), **kw)
+        return Call(f, X, list(TR), init=tk_init(b, k, nonneg=True), **kw)
     if k == "fixed_modes":
-        return Call(f, X, TR, init=tk_init(b, "init_tuple", nonneg=True), fixed_modes=[0], **kw)
+        return Call(f, X, list(TR), init=tk_init(b, "init_tuple", nonneg=True), fixed_modes=[0], **kw)
     if k == "fixed_last":
-        return Call(f, X, TR, init=tk_init(b, "init_tuple", nonneg=True), fixed_modes=[1, 2], **kw)
+        return Call(f, X, list(TR), init=tk_init(b, "init_tuple", nonneg=True), fixed_modes=[1, 2], **kw)
     if k == "sparsity_list":
-        return Call(f, X, TR, sparsity_coefficients=[0.1, 0.2, 0.1], **kw)
+        return Call(f, X, list(TR), sparsity_coefficients=[0.1, 0.2, 0.1], **kw)
     if k == "sparsity_fixed":
-        return Call(f, X, TR, init=tk_init(b, "init_tuple", nonneg=True), sparsity_coefficients=[0.1, 0.2, 0.1], fixed_modes=[1], **kw)
+        return Call(f, X, list(TR), init=tk_init(b, "init_tuple", nonneg=True), sparsity_coefficients=[0.1, 0.2, 0.1], fixed_modes=[1], **kw)
     if k == "core_sparsity":
-        return Call(f, X, TR, core_sparsity_coefficient=0.1, **kw)
+        return Call(f, X, list(TR), core_sparsity_coefficient=0.1, **kw)
     if k == "active_set":
-        return Call(f, X, TR, algorithm="active_set", **kw)
+        return Call(f, X, list(TR), algorithm="active_set", **kw)
     if k == "random":
-        return Call(f, X, TR, init="random", random_state=1, **kw)
+        return Call(f, X, list(TR), init="random", random_state=1, **kw)
     if k == "normalize":
-        return Call(f, X, TR, normalize_factors=True, **kw)
-    return Call(f, X, TR, return_errors=True, **kw)
+        return Call(f, X, list(TR), normalize_factors=True, **kw)
+    return Call(f, X, list(TR), return_errors=True, **kw)
 
 
 # ----------------------------------------------------------------------------- TT / TR / PARAFAC2 / robust PCA
-@entry("decomposition.tensor_train", ARR + ("rank_int", "invalid"), ALLDT)
+@entry("decomposition.tensor_train", ARR + ("rank_int", "rank_tuple", "rank_overlarge", "rank_overlarge_tuple", "order4_overlarge", "invalid"), ALLDT)
 def _(b, k):
     f = D().tensor_train
+    if k == "rank_tuple":
+        return Call(f, b.arr(SHAPE), (1, 2, 2, 1))
+    if k == "rank_overlarge":
+        return Call(f, b.arr(SHAPE), [1, 7, 9, 1])
+    if k == "rank_overlarge_tuple":
+        return Call(f, b.arr(SHAPE), (1, 7, 9, 1))
+    if k == "order4_overlarge":
+        return Call(f, b.arr((2, 3, 2, 2)), [1, 2, 9, 5, 1])
     if k == "rank_int":
         return Call(f, b.arr(SHAPE), 2)
     if k == "invalid":
@@ -443,21 +471,51 @@ def _(b, k):
     return Call(f, b.arr(SHAPE, k), [1, 2, 2, 1])
 
 
-@entry("decomposition.TensorTrain.fit_transform", ("fresh",), ALLDT)
+@entry("decomposition.TensorTrain.fit_transform", ("fresh", "rank_overlarge", "rank_tuple"), ALLDT)
 def _(b, k):
-    def fit(X):
-        return D().TensorTrain([1, 2, 2, 1]).fit_transform(X)
-    return Call(fit, b.arr(SHAPE))
+    def fit(X, rank):            # the estimator holds the caller's rank container
+        return D().TensorTrain(rank).fit_transform(X)
+    rank = {"fresh": [1, 2, 2, 1], "rank_overlarge": [1, 7, 9, 1], "rank_tuple": (1, 7, 9, 1)}[k]
+    return Call(fit, b.arr(SHAPE), rank)
 
 
-@entry("decomposition.tensor_train_matrix", ARR, ALLDT)
+@entry("decomposition.tensor_train_matrix", ARR + ("rank_overlarge", "rank_tuple", "rank_int"), ALLDT)
 def _(b, k):
-    return Call(D().tensor_train_matrix, b.arr((2, 2, 3, 2), k), [1, 2, 1])
+    f = D().tensor_train_matrix
+    if k == "rank_overlarge":
+        return Call(f, b.arr((2, 2, 3, 2)), [1, 9, 1])
+    if k == "rank_tuple":
+        return Call(f, b.arr((2, 2, 3, 2)), (1, 9, 1))
+    if k == "rank_int":
+        return Call(f, b.arr((2, 2, 3, 2)), 2)
+    return Call(f, b.arr((2, 2, 3, 2), k), [1, 2, 1])
 
 
-@entry("decomposition.tensor_ring", ARR + ("mode1", "invalid"), ALLDT)
+@entry("decomposition.TensorTrainMatrix.fit_transform", ("fresh", "rank_overlarge"), ALLDT)
+def _(b, k):
+    def fit(X, rank):
+        return D().TensorTrainMatrix(rank).fit_transform(X)
+    return Call(fit, b.arr((2, 2, 3, 2)), [1, 9, 1] if k == "rank_overlarge" else [1, 2, 1])
+
+
+@entry("decomposition.tensor_ring", ARR + ("mode1", "rank_tuple", "rank_overlarge", "rank_overlarge_tuple", "rank_overlarge_mode1",
+                                         "rank_overlarge_mode2", "order4_overlarge", "rank_int", "invalid"), ALLDT)
 def _(b, k):
     f = D().tensor_ring
+    if k == "rank_tuple":
+        return Call(f, b.arr((4, 3, 2)), (2, 2, 1, 2))
+    if k == "rank_overlarge":       # interior ranks not attainable: the sweep truncates rank[k+1]
+        return Call(f, b.arr((4, 3, 2)), [2, 2, 9, 2])
+    if k == "rank_overlarge_tuple":
+        return Call(f, b.arr((4, 3, 2)), (2, 2, 9, 2))
+    if k == "rank_overlarge_mode1":
+        return Call(f, b.arr((4, 4, 2)), [9, 2, 2, 9], mode=1)
+    if k == "rank_overlarge_mode2":
+        return Call(f, b.arr((2, 3, 4)), [2, 9, 2, 2], mode=2)
+    if k == "order4_overlarge":
+        return Call(f, b.arr((4, 2, 3, 2)), [2, 2, 5, 9, 2])
+    if k == "rank_int":
+        return Call(f, b.arr((4, 3, 2)), 2)
     if k == "mode1":
         return Call(f, b.arr((4, 3, 2)), [2, 1, 2, 2], mode=1)
     if k == "invalid":
@@ -465,7 +523,18 @@ def _(b, k):
     return Call(f, b.arr((4, 3, 2), k), [2, 2, 1, 2])
 
 
-@entry("decomposition.tensor_ring_als", ARR + ("normal_eq", "callback"), FLOATS)
+@entry("decomposition.TensorRing.fit_transform", ("fresh", "rank_overlarge", "rank_overlarge_mode1"), ALLDT)
+def _(b, k):
+    def fit(X, rank, mode=0):
+        return D().TensorRing(rank, mode=mode).fit_transform(X)
+    if k == "rank_overlarge":
+        return Call(fit, b.arr((4, 3, 2)), [2, 2, 9, 2])
+    if k == "rank_overlarge_mode1":
+        return Call(fit, b.arr((4, 4, 2)), [9, 2, 2, 9], mode=1)
+    return Call(fit, b.arr((4, 3, 2)), [2, 2, 1, 2])
+
+
+@entry("decomposition.tensor_ring_als", ARR + ("normal_eq", "callback", "rank_tuple", "estimator"), FLOATS)
 def _(b, k):
     f = D().tensor_ring_als
     kw = dict(n_iter_max=IT, random_state=1)
@@ -473,10 +542,16 @@ def _(b, k):
         return Call(f, b.arr(SHAPE), [2, 2, 2, 2], ls_solve="normal_eq", **kw)
     if k == "callback":
         return Call(f, b.arr(SHAPE), [2, 2, 2, 2], callback=lambda *a: None, **kw)
+    if k == "rank_tuple":
+        return Call(f, b.arr(SHAPE), (2, 2, 2, 2), **kw)
+    if k == "estimator":
+        def fit(X, rank):
+            return D().TensorRingALS(rank, n_iter_max=IT, random_state=1).fit_transform(X)
+        return Call(fit, b.arr(SHAPE), [2, 2, 2, 2])
     return Call(f, b.arr(SHAPE, k), [2, 2, 2, 2], **kw)
 
 
-@entry("decomposition.tensor_ring_als_sampled", ARR + ("uniform", "randomized_error"), FLOATS)
+@entry("decomposition.tensor_ring_als_sampled", ARR + ("uniform", "randomized_error", "n_samples_list", "n_samples_tuple", "estimator"), FLOATS)
 def _(b, k):
     f = D().tensor_ring_als_sampled
     kw = dict(n_iter_max=IT, random_state=1)
@@ -484,6 +559,14 @@ def _(b, k):
         return Call(f, b.arr(SHAPE), [2, 2, 2, 2], 6, uniform_sampling=True, **kw)
     if k == "randomized_error":
         return Call(f, b.arr(SHAPE), [2, 2, 2, 2], 6, randomized_error=True, callback=lambda *a: None, **kw)
+    if k == "n_samples_list":
+        return Call(f, b.arr(SHAPE), [2, 2, 2, 2], [6, 5, 7], **kw)
+    if k == "n_samples_tuple":
+        return Call(f, b.arr(SHAPE), (2, 2, 2, 2), (6, 5, 7), **kw)
+    if k == "estimator":
+        def fit(X, rank, n_samples):
+            return D().TensorRingALSSampled(rank, n_samples, n_iter_max=IT, random_state=1).fit_transform(X)
+        return Call(fit, b.arr(SHAPE), [2, 2, 2, 2], [6, 5, 7])
     return Call(f, b.arr(SHAPE, k), [2, 2, 2, 2], 6, **kw)
 
 
@@ -497,7 +580,7 @@ def slices(b, form="list", kind="fresh", nonneg=False, ragged=True):
 
 
 @entry("decomposition.parafac2", ("list", "tuple", "tensor", "list_tview", "list_sview", "svd", "init_cp", "init_p2", "init_p2_obj",
-                                  "nn_modes", "normalize", "linesearch", "errors", "invalid_init"), FLOATS)
+                                  "nn_modes", "nn_modes_all", "nn_modes_tuple", "normalize", "linesearch", "errors", "invalid_init"), FLOATS)
 def _(b, k):
     f = D().parafac2
     kw = dict(n_iter_max=IT, tol=0, random_state=1, n_iter_parafac=2, linesearch=False)
@@ -519,6 +602,10 @@ def _(b, k):
         return Call(f, sl, RANK, init=Parafac2Tensor(init) if k.endswith("obj") else init, **kw)
     if k == "nn_modes":
         return Call(f, slices(b, nonneg=True, ragged=False), RANK, nn_modes=[0, 2], **kw)
+    if k == "nn_modes_all":
+        return Call(f, slices(b, nonneg=True, ragged=False), RANK, nn_modes="all", **kw)
+    if k == "nn_modes_tuple":
+        return Call(f, slices(b, nonneg=True, ragged=False), RANK, nn_modes=(2,), **kw)
     if k == "normalize":
         return Call(f, sl, RANK, normalize_factors=True, **kw)
     if k == "linesearch":
@@ -837,14 +924,17 @@ def _(b, k):
     return Call(run, X, y, b.arr((3, 3, 2), akind(k)))
 
 
-@entry("regression.TuckerRegressor", ARR + ("x_order4",), FLOATS)
+@entry("regression.TuckerRegressor", ARR + ("x_order4", "ranks_list", "ranks_overlarge"), FLOATS)
 def _(b, k):
     from tensorly.regression import TuckerRegressor
 
-    def run(X, y, Xnew):
-        r = TuckerRegressor(weight_ranks=[2, 2], n_iter_max=IT, verbose=0, random_state=1)
+    def run(X, y, Xnew, weight_ranks=None):
+        r = TuckerRegressor(weight_ranks=[2, 2] if weight_ranks is None else weight_ranks, n_iter_max=IT, verbose=0, random_state=1)
         r.fit(X, y)
         return {"weight_tensor_": r.weight_tensor_, "tucker_weight_": r.tucker_weight_, "vec_W_": r.vec_W_, "predict": r.predict(Xnew)}
+    if k in ("ranks_list", "ranks_overlarge"):
+        X, y = reg_data(b, "fresh")
+        return Call(run, X, y, b.arr((3, 3, 2)), weight_ranks=[2, 2] if k == "ranks_list" else [5, 4])
     if k == "x_order4":
         def run4(X, y, Xnew):
             r = TuckerRegressor(weight_ranks=[2, 2, 2], n_iter_max=IT, verbose=0, random_state=1)
@@ -914,10 +1004,12 @@ def _(b, k):
 
 
 # ----------------------------------------------------------------------------- random
-def _rand(name, args, kinds=("cp", "full"), kw=None):
+def _rand(name, args, kinds=("cp", "full"), kw=None, fname=None):
     @entry("random." + name, kinds, ALLDT if name in ("random_tensor",) else FLOATS)
-    def _b(b, k, name=name, args=args, kw=kw):
+    def _b(b, k, name=fname or name, args=args, kw=kw):
+        import copy
         import tensorly.random as R
+        args = copy.deepcopy(args)          # every call owns its shape / rank containers
         k2 = dict(kw or {})
         k2.update(random_state=1, dtype=getattr(np, b.dtype))
         if k == "full":
@@ -935,7 +1027,58 @@ def _rand(name, args, kinds=("cp", "full"), kw=None):
 _rand("random_tensor", (SHAPE,), kinds=("cp",))
 _rand("random_cp", (SHAPE, RANK), kinds=("cp", "full", "orthogonal", "normalise"))
 _rand("random_tucker", (SHAPE, [2, 2, 2]), kinds=("cp", "full", "orthogonal", "non_negative"))
+_rand("random_tucker_ranks", (list(SHAPE), (2, 9, 2)), kinds=("cp", "full"), fname="random_tucker")
+_rand("random_tt_ranks", (list(SHAPE), (1, 7, 9, 1)), kinds=("cp", "full"), fname="random_tt")
+_rand("random_tr_ranks", (list(SHAPE), (2, 3, 9, 2)), kinds=("cp", "full"), fname="random_tr")
+_rand("random_tt_matrix_ranks", ([2, 2, 3, 2], (1, 9, 1)), kinds=("cp", "full"), fname="random_tt_matrix")
+_rand("random_parafac2_shapes", (((4, 3), (5, 3), (4, 3)), RANK), kinds=("cp", "full"), fname="random_parafac2")
 _rand("random_tt", (SHAPE, [1, 2, 2, 1]))
 _rand("random_tt_matrix", ((2, 2, 3, 2), [1, 2, 1]))
 _rand("random_tr", (SHAPE, [2, 2, 2, 2]))
 _rand("random_parafac2", ([(4, 3), (5, 3), (4, 3)], RANK), kinds=("cp", "full", "normalise"))
+
+
+# ----------------------------------------------------------------------------- rank validators (option containers)
+@entry("validate.validate_tr_rank", ("list", "tuple", "int", "same", "float", "invalid"), FLOATS)
+def _(b, k):
+    from tensorly.tr_tensor import validate_tr_rank as f
+    arg = {"list": [2, 3, 9, 2], "tuple": (2, 3, 9, 2), "int": 2, "same": "same", "float": 0.5, "invalid": [2, 3, 2, 3]}[k]
+    c = Call(f, SHAPE, arg)
+    return c.raises() if k == "invalid" else c
+
+
+@entry("validate.validate_tt_rank", ("list", "list_overlarge", "tuple", "int", "same", "float", "no_overparam", "invalid"), FLOATS)
+def _(b, k):
+    from tensorly.tt_tensor import validate_tt_rank as f
+    if k == "no_overparam":
+        return Call(f, SHAPE, [1, 7, 9, 1], allow_overparametrization=False)
+    arg = {"list": [1, 2, 2, 1], "list_overlarge": [1, 7, 9, 1], "tuple": (1, 7, 9, 1), "int": 2, "same": "same", "float": 0.5,
+           "invalid": [2, 2, 2, 1]}[k]
+    c = Call(f, SHAPE, arg)
+    return c.raises() if k == "invalid" else c
+
+
+@entry("validate.validate_tucker_rank", ("list", "tuple", "int", "same", "float", "fixed_modes", "fixed_modes_unsorted"), FLOATS)
+def _(b, k):
+    from tensorly.tucker_tensor import validate_tucker_rank as f
+    if k == "fixed_modes":
+        return Call(f, SHAPE, 0.5, fixed_modes=[1])
+    if k == "fixed_modes_unsorted":
+        return Call(f, (3, 4, 2, 3), 0.5, fixed_modes=[3, 0])
+    arg = {"list": [2, 9, 2], "tuple": (2, 9, 2), "int": 2, "same": "same", "float": 0.5}[k]
+    return Call(f, SHAPE, arg)
+
+
+@entry("validate.validate_cp_rank", ("int", "same", "float", "shape_list"), FLOATS)
+def _(b, k):
+    from tensorly.cp_tensor import validate_cp_rank as f
+    if k == "shape_list":
+        return Call(f, list(SHAPE), 0.5, rounding="ceil")
+    return Call(f, SHAPE, {"int": 3, "same": "same", "float": 0.5}[k])
+
+
+@entry("validate.validate_tt_matrix_rank", ("list", "tuple", "int", "same", "float"), FLOATS)
+def _(b, k):
+    from tensorly.tt_matrix import validate_tt_matrix_rank as f
+    arg = {"list": [1, 9, 1], "tuple": (1, 9, 1), "int": 2, "same": "same", "float": 0.5}[k]
+    return Call(f, (2, 2, 3, 2), arg)
